@@ -158,6 +158,18 @@ class Analyzer3:
                     self.broken = self.broken or 'BND3: %s: %s is read at index %s, which grows by %s; how that amount relates to the ' \
                         'string is not kept by this analysis' % (self.fn.where(node), key, ix['n'], expr_str(grows[0]['r'])[:30])
                     return
+                # a position in the string kept as an index that travels between functions (handed in as a parameter, handed back as
+                # a result, or through a pointer to it): this analysis follows positions that travel as pointers
+                defs_ = [a_['r'] for a_ in self.fn.nodes() if a_.get('k') == 'bin' and a_.get('op') == '=' and
+                         strip_casts(a_['l']).get('k') == 'ref' and strip_casts(a_['l'])['d'] == ix['d']]
+                defs_ += [d_['init'] for d_ in self.fn.locals() if d_['d'] == ix['d'] and 'init' in d_]
+                travels = ix.get('dk') == 'param' or any(
+                    strip_casts(r_).get('k') == 'call' or (strip_casts(r_).get('k') == 'un' and strip_casts(r_).get('op') == '*')
+                    for r_ in defs_)
+                if travels:
+                    self.broken = self.broken or 'BND3: %s: %s is read at index %s, a position that travels between functions as a number; ' \
+                        'this analysis follows positions that travel as pointers' % (self.fn.where(node), key, ix['n'])
+                    return
             self.site('BND3', node, 'read %s at a variable index' % expr_str(node)[:40], ok, why,
                       'read:%s[%s]' % (key, expr_str(ix)))
 
